@@ -45,6 +45,8 @@ A_PY = [
     "class _PB:\n    def pbm(self): ...\n    def other(self): ...",
     "class Base(_PB):\n    def bm(self): ...\n    battr = 1",
     'class K(Base):\n    """Doc K."""\n    attr = 1\n    def m(self, p): ...\n    def _pm(self): ...',
+    # a class with a single public path (no re-export, no subclass): nothing else can report for it
+    "class L(Base):\n    lattr = 1\n    def lm(self): ...",
     "w = 2",
     "_pw = 3",
 ]
@@ -58,9 +60,10 @@ VARIANTS = {
 # public paths through which an object can be reached
 PUBLIC = {
     "pkg.a.f": {"pkg.a.f", "pkg.f"}, "pkg.a.K": {"pkg.a.K", "pkg.K"}, "pkg.a.K.attr": {"pkg.a.K.attr", "pkg.K.attr", "pkg.Sub.attr"},
-    "pkg.a.K.m": {"pkg.a.K.m", "pkg.K.m", "pkg.Sub.m"}, "pkg.a.Base.bm": {"pkg.a.Base.bm", "pkg.a.K.bm", "pkg.K.bm", "pkg.Sub.bm"},
+    "pkg.a.K.m": {"pkg.a.K.m", "pkg.K.m", "pkg.Sub.m"}, "pkg.a.Base.bm": {"pkg.a.Base.bm", "pkg.a.K.bm", "pkg.K.bm", "pkg.Sub.bm", "pkg.a.L.bm"},
+    "pkg.a.L": {"pkg.a.L"}, "pkg.a.L.lm": {"pkg.a.L.lm"}, "pkg.a.L.lattr": {"pkg.a.L.lattr"},
     "pkg.a.f@definition": {"pkg.a.f"}, "pkg.a.Base.bm@definition": {"pkg.a.Base.bm"},
-    "pkg.a.Base": {"pkg.a.Base"}, "pkg.a._PB.pbm": {"pkg.a.Base.pbm", "pkg.a.K.pbm", "pkg.K.pbm", "pkg.Sub.pbm"}, "pkg.a.w": {"pkg.a.w"}, "pkg.VALUE": {"pkg.VALUE"}, "pkg.Sub": {"pkg.Sub"}, "pkg.a.Base.battr": {"pkg.a.Base.battr", "pkg.a.K.battr", "pkg.K.battr", "pkg.Sub.battr"},
+    "pkg.a.Base": {"pkg.a.Base"}, "pkg.a._PB.pbm": {"pkg.a.Base.pbm", "pkg.a.K.pbm", "pkg.K.pbm", "pkg.Sub.pbm", "pkg.a.L.pbm"}, "pkg.a.w": {"pkg.a.w"}, "pkg.VALUE": {"pkg.VALUE"}, "pkg.Sub": {"pkg.Sub"}, "pkg.a.Base.battr": {"pkg.a.Base.battr", "pkg.a.K.battr", "pkg.K.battr", "pkg.Sub.battr", "pkg.a.L.battr"},
 }
 PRIVATE_MARKERS = ("_g", "_pm", "_pw", "helper", "_priv", "_PB")
 
@@ -100,6 +103,9 @@ def catalogue():
     edit("remove-K", False, A, lambda s: [x for x in s if not x.startswith("class K(")], ("pkg.a.K", "removed", None))
     edit("rekind-K", False, A, lambda s: [("def K(): ..." if x.startswith("class K(") else x) for x in s], ("pkg.a.K", "kind", None))
     edit("remove-base", False, A, lambda s: _sub(s, "class K(Base):", "class K:"), ("pkg.a.K", "Base class was removed", "pkg.a.K"))
+    edit("remove-base-L", False, A, lambda s: _sub(s, "class L(Base):", "class L:"), ("pkg.a.L", "Base class was removed", "pkg.a.L"))
+    edit("remove-method-lm", False, A, lambda s: _sub(s, "\n    def lm(self): ...", ""), ("pkg.a.L.lm", "removed", "pkg.a.L"))
+    edit("change-lattr-value", False, A, lambda s: _sub(s, "    lattr = 1", "    lattr = 2"), ("pkg.a.L.lattr", "value was changed", "pkg.a.L"))
     edit("change-attr-value", False, A, lambda s: _sub(s, "    attr = 1", "    attr = 2"), ("pkg.a.K.attr", "value was changed", "pkg.a.K"))
     edit("change-w-value", False, A, lambda s: _sub(s, "w = 2", "w = 5"), ("pkg.a.w", "value was changed", None))
     edit("remove-w", False, A, lambda s: [x for x in s if x != "w = 2"], ("pkg.a.w", "removed", None))
@@ -213,7 +219,7 @@ def judge(griffe, variant, script, old_pkg, new_pkg):
             bare = target.split("@")[0]
             if container in lost or any(bare != l and bare.startswith(l + ".") for l in lost) or (target != bare and bare in lost):
                 continue
-            if e["name"] == "remove-base" and "pkg.a.Base" in lost:
+            if e["name"] in ("remove-base", "remove-base-L") and "pkg.a.Base" in lost:
                 continue
             if e["name"] == "drop-reexport" and "pkg.a.f" in lost:
                 continue
